@@ -413,6 +413,9 @@ package zygo
 // state whether it is already inside that container (a script can make a hash or an array contain
 // itself; without the question the recursion exhausts the stack, and that kills the process, no
 // recover helps). Printers of containers no script can make cyclic are listed.
+// the JSON encoder (also behind msgpack) is the same kind of traversal over the same containers;
+// JsonFunction / SexpToMsgpack only enter it
+//@ cycleguard C01 SexpToJson | (*PrintState).GetSeen | (*PrintState).SetSeen | JsonFunction$1, SexpToMsgpack
 //@ func (*PrintState).AddIndent
 //@ C01 ensures a-state-to-print-with: r0 != nil
 //@ cycleguard C01 SexpString | (*PrintState).GetSeen | (*PrintState).SetSeen | (*SexpPair).SexpString, (*SexpArraySelector).SexpString, (*SexpHashSelector).SexpString, (*SexpField).SexpString, (*SexpFunction).SexpString, (*SexpLazyArg).SexpString, (*SexpPointer).SexpString, (*SexpError).SexpString, (*RecordDefn).SexpString, (*SexpInterfaceDecl).SexpString, (*SexpClosureEnv).SexpString
